@@ -1019,8 +1019,11 @@ class EngineA:
             def do_s():
                 w["S"][tuple(key)] = rhs["val"]
         else:
+            rhs_objs = {}
+
             def do_d():
-                w["D"][tuple(key)] = ttb.tensor(np.asfortranarray(R.copy()))
+                rhs_objs["D"] = ttb.tensor(np.asfortranarray(R.copy()))
+                w["D"][tuple(key)] = rhs_objs["D"]
 
             def do_s():
                 nzs = np.argwhere(R != 0)
@@ -1028,6 +1031,7 @@ class EngineA:
                     val = ttb.sptensor(nzs, R[tuple(nzs.T)].reshape(-1, 1), rshape)
                 else:
                     val = ttb.sptensor(shape=rshape)
+                rhs_objs["S"] = val
                 w["S"][tuple(key)] = val
 
             res.bump("probe:region_write_tensor_rhs")
@@ -1042,6 +1046,14 @@ class EngineA:
             res.bump("probe:dense_mirrored_by_subscripts")
         self._call(do_d, f"D[region {key}] = {rhs}", "w_region", i)
         self._call(do_s, f"S[region {key}] = {rhs}", "w_region", i)
+        if rhs["kind"] == "tensor" and not step.get("dense_via_subs"):
+            # the right-hand side is a tensor in its own right: it must still read as before
+            if "D" in rhs_objs and (tuple(rhs_objs["D"].shape) != rshape or not np.array_equal(rhs_objs["D"].data, R)):
+                return self._viol("right_hand_side_unchanged_by_assignment", "w_region", i, f"the dense tensor assigned into D[{key}] changed")
+            if "S" in rhs_objs:
+                got, problem = densify(rhs_objs["S"].subs, rhs_objs["S"].vals, tuple(int(v) for v in rhs_objs["S"].shape))
+                if problem is not None or got.shape != R.shape or not np.array_equal(got, R):
+                    return self._viol("right_hand_side_unchanged_by_assignment", "w_region", i, f"the sparse tensor assigned into S[{key}] no longer reads as before: {problem or np.asarray(got).tolist()} vs {R.tolist()}")
         self._write_effect(w, res, bc, bs)
         return None
 
